@@ -13,8 +13,8 @@
 From Coq Require Import String.
 From Statham.Model Require Import Str Json Elem PyNum Validate Equality SerJson Spec6 Tables.
 From Statham.Generated Require Gen_signatures Gen_type_mapping.
-From Statham.Model Require Import Plain SerFrag.
-From Statham.Proofs Require Import Agree_tables SerJsonProof JsonEqProof C01Vm C03Meaning.
+From Statham.Model Require Import Plain SerFrag Resolve RunSer ClsFrag.
+From Statham.Proofs Require Import Agree_tables SerJsonProof JsonEqProof C01Vm C03Meaning C03Resolve C03Classes C03Doc.
 Local Open Scope string_scope.
 Local Open Scope list_scope.
 
@@ -64,3 +64,64 @@ Print Assumptions C03_meaning.
 Theorem C03_fragment_checker : forall fuel e, dslb fuel e = true -> dsl e.
 Proof. exact dslb_sound. Qed.
 Print Assumptions C03_fragment_checker.
+
+(* ---- trees WITH object classes ------------------------------------------------------------------
+   The document serialize_json writes (SerJson/RunSer.ser_doc: classes as $ref, their documents under
+   "definitions"), once its references are resolved (Resolve.resolve_doc: every {"$ref":
+   "#/definitions/N"} at a schema position replaced by definition N, recursively), is the document
+   with the classes written in place, and that document accepts (Spec6.v6, required-with-default
+   waived on typed objects as the code does: WCode) exactly what the tree accepts — for every tree
+   of the fragment cdsl (elements as in C03_meaning; classes with clean const/enum, distinct
+   non-empty JSON names, no explicitly required name that is the JSON name of a defaulted property),
+   every collection of classes whose definitions hold, under its name, the document of every class
+   node below the primary element (so no two different classes share a name: finding K25 otherwise),
+   every oracle and every value. *)
+Theorem C03_resolution : forall e body dfs, ser_top true true [] e = JObj body -> defs_ok_below dfs e ->
+  exists n0, forall n, n0 <= n -> resolve_doc n (doc_of body dfs) = Some (ser_inl e).
+Proof. exact resolve_doc_ser. Qed.
+Print Assumptions C03_resolution.
+
+Theorem C03_inplace_meaning : forall O e, cdsl e ->
+  forall v, jwf v -> om (build O e (Some v)) (v6 O WCode (ser_inl e) v).
+Proof. intros O e Hd. exact (ser_inl_meaning O e Hd). Qed.
+Print Assumptions C03_inplace_meaning.
+
+Theorem C03_meaning_classes : forall O e classes fuel,
+  cdslb fuel e = true -> e <> ENothing -> defs_okb (class_defs classes) fuel e = true ->
+  exists n0, forall n, n0 <= n ->
+    exists R, resolve_doc n (ser_doc [] e classes) = Some R /\
+              forall v, jwf v -> om (build O e (Some v)) (v6 O WCode R v).
+Proof. exact doc_meaning_classes. Qed.
+Print Assumptions C03_meaning_classes.
+
+Theorem C03_classes_checker : forall fuel e, cdslb fuel e = true -> cdsl e.
+Proof. exact cdslb_sound. Qed.
+Theorem C03_definitions_checker : forall dfs fuel e, defs_okb dfs fuel e = true -> defs_ok_below dfs e.
+Proof. exact defs_okb_sound. Qed.
+
+(* non-vacuity: a tree with two classes (one nested in the other and shared), required and
+   defaulted properties, additionalProperties a class: the premises hold, the document resolves,
+   and the verdicts agree on concrete values *)
+Definition exc_foo : elem :=
+  EObj (s_ "Foo") [s_ "Object"]
+       (mkK None None None None (AddBool true) None None false None None None None None None None None None None None
+            (Some [(s_ "a", mkProp (EK CString k0) true (s_ "a"));
+                   (s_ "n", mkProp (EK CInteger (mkK (Some (JInt 1)) None None None (AddBool true) None None false None None None None None None None None None None None None None (AddBool true) None None None None None)) true (s_ "n"))])
+            None (AddBool false) None None None None None).
+Definition exc_bar : elem :=
+  EObj (s_ "Bar") [s_ "Object"]
+       (mkK None None None None (AddBool true) None None false None None None None None None None None None None (Some [s_ "f"])
+            (Some [(s_ "f", mkProp exc_foo false (s_ "f"))]) None (AddElem exc_foo) None None None None None).
+Definition exc_root : elem :=
+  EK CArray (mkK None None None (Some (ItMany [exc_bar; exc_foo])) (AddBool false) None None false None None None None None None None None None None None None None (AddBool true) None None None None None).
+Example C03_classes_inhabited :
+  cdslb 20 exc_root && defs_okb (class_defs [exc_bar; exc_foo]) 20 exc_root = true /\
+  match resolve_doc 20 (ser_doc [] exc_root [exc_bar; exc_foo]) with
+  | Some R =>
+    v6 no_oracle WCode R (JArr [JObj [(s_ "f", JObj [(s_ "a", JStr (s_ "x"))])]; JObj [(s_ "a", JStr (s_ "y")); (s_ "n", JInt 2)]]) = true /\
+    v6 no_oracle WCode R (JArr [JObj []; JObj [(s_ "a", JStr (s_ "y"))]]) = false /\
+    accepts no_oracle exc_root (JArr [JObj [(s_ "f", JObj [(s_ "a", JStr (s_ "x"))])]; JObj [(s_ "a", JStr (s_ "y")); (s_ "n", JInt 2)]]) = true /\
+    accepts no_oracle exc_root (JArr [JObj []; JObj [(s_ "a", JStr (s_ "y"))]]) = false
+  | None => False
+  end.
+Proof. vm_compute. repeat split; reflexivity. Qed.
